@@ -1,6 +1,157 @@
 package main
 
+import (
+	"fmt"
+	"os"
+	"sort"
+	"strconv"
+	"sync"
+	"time"
+)
+
+// cmdSelftest validates the machinery itself (DESIGN.md §7).
 func cmdSelftest(args []string) int {
-	exit2("selftest not implemented yet")
+	switch args[0] {
+	case "determinism":
+		return selftestDeterminism(args[1:])
+	}
+	exit2("unknown selftest %q", args[0])
 	return 2
 }
+
+// selftestDeterminism: the same run seeds executed in many processes at several GOMAXPROCS
+// values (and in reversed order within a process) must give identical per-run event digests.
+func selftestDeterminism(args []string) int {
+	runs, procs := 200, 30
+	ids := []string{"C04", "C05", "C06", "C07", "C13", "C14", "C19"}
+	for i := 0; i < len(args); i++ {
+		switch args[i] {
+		case "--runs":
+			i++
+			runs, _ = strconv.Atoi(args[i])
+		case "--procs":
+			i++
+			procs, _ = strconv.Atoi(args[i])
+		case "--props":
+			i++
+			ids = nil
+			for _, p := range splitComma(args[i]) {
+				ids = append(ids, p)
+			}
+		}
+	}
+	seed := seedFromEnv()
+	curSeed = seed
+	env := prepare(true, true, true, false)
+	defer env.cleanup()
+	bad := 0
+	for _, id := range ids {
+		p := props[id]
+		bin := env.worker
+		if p.race {
+			bin = env.race
+		}
+		c := &checkCtx{p: p, env: env, bin: bin, seed: seed, tier: "quick", extra: map[string]interface{}{}, t0: time.Now()}
+		extraArgs = nil
+		if p.pre != nil {
+			p.pre(c)
+		}
+		type res struct {
+			gmp, order string
+			dig        map[int]uint64
+			err        error
+		}
+		results := make([]res, procs)
+		var wg sync.WaitGroup
+		sem := make(chan struct{}, 16)
+		for k := 0; k < procs; k++ {
+			k := k
+			wg.Add(1)
+			go func() {
+				defer wg.Done()
+				sem <- struct{}{}
+				defer func() { <-sem }()
+				gmp := []string{"1", "4", "16"}[k%3]
+				order := "asc"
+				if k%5 == 4 {
+					order = "desc"
+				}
+				cr := runChunkGMP(bin, id, seed, 0, runs, order, gmp)
+				r := res{gmp: gmp, order: order, err: cr.err}
+				if cr.sum != nil {
+					r.dig = map[int]uint64{}
+					for kk, v := range cr.sum.Digests {
+						i, _ := strconv.Atoi(kk)
+						r.dig[i] = v
+					}
+				}
+				if cr.viol != nil && cr.err == nil {
+					r.err = fmt.Errorf("violation during determinism test: %s", cr.viol.Viol.Class)
+				}
+				results[k] = r
+			}()
+		}
+		wg.Wait()
+		ref := results[0]
+		diffs := 0
+		for k, r := range results {
+			if r.err != nil {
+				fmt.Printf("%s: process %d (GOMAXPROCS=%s, %s): %v\n", id, k, r.gmp, r.order, r.err)
+				diffs++
+				continue
+			}
+			if len(r.dig) != runs {
+				fmt.Printf("%s: process %d reported %d digests, expected %d\n", id, k, len(r.dig), runs)
+				diffs++
+				continue
+			}
+			var ks []int
+			for i := range r.dig {
+				ks = append(ks, i)
+			}
+			sort.Ints(ks)
+			for _, i := range ks {
+				if r.dig[i] != ref.dig[i] {
+					fmt.Printf("%s: run %d differs between process 0 (GOMAXPROCS=%s,%s) and process %d (GOMAXPROCS=%s,%s)\n", id, i, ref.gmp, ref.order, k, r.gmp, r.order)
+					diffs++
+					break
+				}
+			}
+		}
+		fmt.Printf("determinism %s: %d runs x %d processes (GOMAXPROCS 1/4/16, every 5th process in descending order): %d divergent processes\n", id, runs, procs, diffs)
+		bad += diffs
+	}
+	if bad > 0 {
+		fmt.Println("DETERMINISM SELFTEST FAILED")
+		return 2
+	}
+	fmt.Println("determinism selftest ok")
+	return 0
+}
+
+func runChunkGMP(bin, prop string, seed uint64, from, to int, order, gmp string) chunkResult {
+	old := gomaxprocs
+	_ = old
+	return runChunkEnv(bin, prop, seed, from, to, order, gmp, "-digests")
+}
+
+func splitComma(s string) []string {
+	var out []string
+	cur := ""
+	for _, r := range s {
+		if r == ',' {
+			if cur != "" {
+				out = append(out, cur)
+			}
+			cur = ""
+		} else {
+			cur += string(r)
+		}
+	}
+	if cur != "" {
+		out = append(out, cur)
+	}
+	return out
+}
+
+var _ = os.Getenv
